@@ -85,7 +85,7 @@ def version_guard(ctx, filename, fetched, small_fields, big_fields, small_pred, 
 
 
 def run(chk, prog):
-    chk.rules_live = ["R1", "R2", "R3", "R4", "R5", "R6"]
+    chk.rules_live = ["R1", "R2", "R3", "R4", "R5", "R6", "R7"]
     chk.explanation = (
         "Static must-pass-through rules over the MIR control-flow graphs of load_timestamp/"
         "load_snapshot/load_targets/load_root: datastore.create(F) is unreachable from the entry "
@@ -142,6 +142,21 @@ def run(chk, prog):
                     ctx.site(create_blocks[0]),
                     detail="guards=%d skip_edges=%d" % (len(guards), len(S)),
                     path=ctx.describe_path(path))
+        # R7: the skip edges really skip — from "no stored file", "unparsable" and "no longer verifies" the
+        # new document can still be persisted (otherwise a key/threshold change locks the client out for good)
+        cats = {"absent-or-unparsable": [], "no-longer-verifies": []}
+        for bb_, tr_ in info:
+            cats["absent-or-unparsable"].extend(e for br in tr_.branches if br.level >= 1 and br.kind != "Poll" for e in br.neg)
+        for vb, vt in ctx.calls(*VERIFY):
+            og_ = ctx.origins.of_operand(vt.args[1])
+            if og_ and all(stored_origin(ctx, o, fname) for o in og_):
+                cats["no-longer-verifies"].extend(ctx.track_call(vb).all_neg_edges())
+        for cat, edges_ in cats.items():
+            r_ = ctx.cfg.reach_from_edges(edges_) if edges_ else set()
+            chk.require(bool(edges_) and bool(r_ & set(create_blocks)), "R7", f, fname + ":" + cat + "-is-skipped",
+                        "when the stored %s is %s the cycle cannot complete (the new document is never persisted): a "
+                        "repository that moves forward after a key or threshold change would be refused for ever"
+                        % (fname, cat.replace("-", " ")), ctx.site(create_blocks[0]))
         # R3: what is persisted is the verified, returned document; Ok is returned only after create
         for bb, t in creates:
             og = ctx.origins.of_operand(t.args[2])
